@@ -823,7 +823,7 @@ struct Exec
       case OpAgain:
       {
         std::vector<c01net::Step> s;
-        static const char *pat[] = {"A", "AA", "ApA", "AAAA", "AAp", "ApAA", "A", "AAA"};
+        static const char *pat[] = {"A", "AA", "ApA", "AAAA", "AAp", "ApAA", "AAAAAAA", "AAA"};
         for (const char *q = pat[o.a % 8]; *q; ++q) s.push_back(c01net::Step{static_cast<std::uint8_t>(*q == 'A' ? c01net::AGAIN : c01net::PASS), 0});
         c01net::setDgramWriteScript(s);
         break;
@@ -923,7 +923,7 @@ Plan drawPlan(pbt::Src &src, bool idle)
   p.et = !src.coin(1, 3);
   p.batching = src.coin(1, 4);
   p.readChunk = src.oneOf<std::size_t>({65536, 65536, 65507, 2048, 1472});
-  p.maxWq = src.oneOf<std::size_t>({1024, 1024, 1024, 1024, 2});
+  p.maxWq = src.oneOf<std::size_t>({1024, 1024, 1024, 2, 1});
   p.nListeners = static_cast<unsigned>(1 + src.weighted({3, 2}));
   p.nPeers = static_cast<unsigned>(1 + src.weighted({2, 3, 2, 2}));
   p.salt = static_cast<std::uint32_t>(src.range(0, 0x7fffffff));
